@@ -209,6 +209,44 @@ theorem tchk_sound : ∀ (p : Prog) (d d' : List String) (h h' : St), chk p (d, 
             exact ⟨c1, hr1, TExt.trans (tframe_ext d h h2 hD hfr.2) hE1⟩
         · rw [if_neg hfr] at hc; cases hc
 
+/-! ### forgetting is harmless
+
+The translator puts, in front of every loop, a `clobber` of each variable the loop body binds (what an earlier part of the program
+left in such a variable is dead).  Those `clobber`s are not statements of the real program.  `run_fewer_clobbers`: deleting any
+`clobber` operations from a successful run leaves it successful, from any state that knows at least as much - so what `tchk_sound`
+says about the executions of the translated program holds for the executions of the real one. -/
+
+/-- `tr'` is `tr` with some `clobber` operations deleted -/
+inductive Del : List TOp → List TOp → Prop
+  | nil : Del [] []
+  | keep (o : TOp) {t t' : List TOp} : Del t t' → Del (o :: t) (o :: t')
+  | drop (x : String) {t t' : List TOp} : Del t t' → Del (.clobber x :: t) t'
+
+theorem run_fewer_clobbers : ∀ (tr tr' : List TOp), Del tr tr' → ∀ (c c' c1 : St), TExt c c' → run c tr = .ok c1 →
+    ∃ c1', run c' tr' = .ok c1' ∧ TExt c1 c1'
+  | _, _, .nil, c, c', c1, hE, hr => by
+    simp only [run, Except.ok.injEq] at hr; subst hr
+    exact ⟨c', rfl, hE⟩
+  | _, _, .keep o hd, c, c', c1, hE, hr => by
+    simp only [run] at hr
+    cases hs : step c o with
+    | error e => rw [hs] at hr; cases hr
+    | ok c2 =>
+      rw [hs] at hr
+      simp only at hr
+      obtain ⟨c2', hs', hE2⟩ := tstep_mono c c' c2 o hE hs
+      obtain ⟨c1', hr', hE1⟩ := run_fewer_clobbers _ _ hd c2 c2' c1 hE2 hr
+      exact ⟨c1', by simp only [run, hs']; exact hr', hE1⟩
+  | _, _, .drop x hd, c, c', c1, hE, hr => by
+    simp only [run, step] at hr
+    have hE2 : TExt (upd c x none) c' := by
+      intro y v hy
+      simp only [upd] at hy
+      by_cases e : y = x
+      · simp only [e, if_true] at hy; cases hy
+      · simp only [e, if_false] at hy; exact hE y v hy
+    exact run_fewer_clobbers _ _ hd (upd c x none) c' c1 hE2 hr
+
 /-- a successful step that updates a value in place updated one that is not rooted in an input -/
 theorem mutate_ok_not_input (c c' : St) (x : String) (hs : step c (.mutate x) = .ok c') : c x = some false := by
   simp only [step] at hs
